@@ -1108,6 +1108,15 @@ def negatable_designed(chk):
         ("integer-body", [], {"type": "integer"}, "body"),
         ("enum-header", [{"name": "X-Mode", "in": "header", "required": True, "schema": {"type": "string", "enum": ["fast", "slow"]}}], None, "headers"),
     ]
+    # an earlier document of the same process: same path, method and media type, but a body nothing can violate.  Whether an
+    # input can be negated is a fact about the operation at hand, not about another document's operation with the same label
+    twin = {"openapi": "3.0.2", "info": {"title": "earlier", "version": "1"}, "paths": {"/n": {"post": {
+        "requestBody": {"required": True, "content": {"application/json": {"schema": {}}}}, "responses": {"200": {"description": "OK"}}}}}}
+    draw_real(schemathesis.openapi.from_dict(twin)["/n"]["POST"].as_strategy(
+        generation_mode=GenerationMode.NEGATIVE, generation_config=GenerationConfig(modes=[GenerationMode.NEGATIVE])), 2, chk.seed + 30, 10)
+    chk.feature("negatable:designed:earlier-document-with-the-same-label")
+    single.append(("object-body-with-required-member", [], {"type": "object", "properties": {"x": {"type": "integer"}},
+                                                           "required": ["x"], "additionalProperties": False}, "body"))
     for tag, params, body, kind in single:
         d = {"parameters": params, "responses": {"200": {"description": "OK"}}}
         if body is not None:
